@@ -81,12 +81,35 @@ Definition state_guards_exact_stmt : Prop :=
 Definition state_guards_no_wrap_stmt : Prop :=
   forall w pre post, state_guards w pre post = Pass ->
     forall q, narrow w (true_s post q) = true_s post q.
-(* they are conservative: 2^w - 2 and 2^w - 1 states would fit but are refused (by the
-   assertions, not by the documented panic) *)
+(* they are conservative: 2^w - 2 and 2^w - 1 states would fit but are refused (by
+   StateTable::new resp. StateGraph::new — bare assertions before /repo 394c6e3, the documented
+   panic since) *)
 Definition state_guards_conservative_stmt : Prop :=
   state_guards 8 254 254 = Refuse RStateTable /\ state_guards 8 255 255 = Refuse RStateGraph /\
   state_guards 8 256 256 = Refuse RPager /\ state_guards 8 253 253 = Pass /\
   no_wrap_s 8 254 = true /\ no_wrap_s 8 255 = true.
+(* the composition of the four state-count sites refuses iff the state count is >= MAX - 1
+   (first line: pre-gc = post-gc = n, e.g. no state was collected; second line: in general,
+   also when the Pager loop itself ran out of indices), and WHICHEVER site fires the refusal
+   carries the one documented text "StorageT is not big enough to store this stategraph."
+   ([N] subtraction is truncated: for w = 0, MAX - 1 = 0 and everything is refused) *)
+Definition state_count_refused_iff_stmt : Prop :=
+  (forall w n, refused_with (state_guards w n n) = Some MStategraph <-> max_value w - 1 <= n) /\
+  (forall w pre post, refused_with (state_guards w pre post) = Some MStategraph <->
+     (max_value w < pre \/ max_value w - 1 <= post)) /\
+  (forall w pre post, refused_with (state_guards w pre post) = None \/
+     refused_with (state_guards w pre post) = Some MStategraph).
+(* u8 at the boundary: 253 accepted; 254 (StateTable::new), 255 (StateGraph::new), 256 (Pager
+   loop) and a graph that shrank from 256 to 255 states in gc are refused with the same text;
+   u16 likewise at 65533 / 65534 *)
+Definition state_count_boundary_stmt : Prop :=
+  map (fun n => refused_with (state_guards 8 n n)) [253; 254; 255; 256] =
+    [None; Some MStategraph; Some MStategraph; Some MStategraph] /\
+  map (fun n => state_guards 8 n n) [254; 255; 256] =
+    [Refuse RStateTable; Refuse RStateGraph; Refuse RPager] /\
+  refused_with (state_guards 16 65533 65533) = None /\
+  state_guards 16 65534 65534 = Refuse RStateTable /\
+  refused_with (state_guards 16 65534 65534) = Some MStategraph.
 (* action / goto cells live in usize: encoding then decoding a state or production index
    that fits StorageT gives it back when usize has two more bits than StorageT *)
 Definition cell_roundtrip_stmt : Prop :=
